@@ -24,7 +24,7 @@ region selection, EPD0/EPD1, start level 1 or 2, table / block / page / invalid 
 XNTable / PXNTable accumulation, AF, AP<2:1>, NS, SH, MAIR type).  Long-descriptor faults are returned as Fault(ld=True);
 their DFSR encoding is not modelled because the emulator reaches a mock hook on every one of them.
 
-Not modelled (-> "any"): Hyp mode and the virtualization extensions (stage 2), instruction fetches (XN / PXN),
+Not modelled (-> "any"): Hyp mode and stage 2 of the virtualization extensions (HCR.VM / DC / TGE set), instruction fetches (XN / PXN),
 alignment faults caused by the memory type (an unaligned access to Device / Strongly-ordered memory is UNPREDICTABLE
 without the virtualization extensions), external aborts on walks.
 """
@@ -373,8 +373,12 @@ def _ld(loc, cfg, mem, mva, priv, write):
 # ------------------------------------------------------------------------------------------------ top level
 def translate(loc, cfg, mem, va, priv, write):
     """TranslateAddressV for a data access that is aligned (or targets Normal memory)."""
-    if cfg.get("have_virt_ext") or (loc["cpsr"] & 0x1F) == HYP:
-        return ("any", "virtualization extensions are not modelled")
+    if (loc["cpsr"] & 0x1F) == HYP:
+        return ("any", "the Hyp translation regime is not modelled")
+    if cfg.get("have_virt_ext") and (loc["scr"] & 1) and (loc["hcr"] & ((1 << 0) | (1 << 12) | (1 << 27))):
+        # HCR.VM (stage 2 enabled), HCR.DC (default cacheable), HCR.TGE: not modelled.  With all three clear the
+        # Non-secure PL1&0 regime is a plain stage-1 translation, as in Secure state
+        return ("any", "second-stage translation / HCR.DC / HCR.TGE are not modelled")
     sctlr = loc["sctlr"]
     fcseidr = loc["fcseidr"]
     mva = fcse_mva(va, fcseidr)
